@@ -401,6 +401,8 @@ class Replayer:
             if isinstance(o, np.ndarray):
                 if o.flags.writeable:
                     o.fill(SENT)
+                elif isinstance(o.base, np.ndarray) and o.base.flags.writeable:
+                    o.base.fill(SENT)   # a read-only view the caller made of its own buffer
             elif isinstance(o, list):
                 del o[:]
             elif isinstance(o, dict):
@@ -420,7 +422,15 @@ class Replayer:
 
     # ---- caller-side construction
     def new(self, k, t):
-        return self.np.full((rows_of(t),) + SHAPE[k][1:], float(t))
+        a = self.np.full((rows_of(t),) + SHAPE[k][1:], float(t))
+        self._newcount = getattr(self, "_newcount", 0) + 1
+        if self._newcount % 3 == 0:
+            # every third array the caller hands over is a READ-ONLY view of a buffer the caller keeps (and overwrites later,
+            # see scribble_objs): "frozen" says nothing about who owns the memory
+            v = a.view()
+            v.flags.writeable = False
+            return v
+        return a
 
     def locate(self, w, k2, i):
         if w == "cur":
@@ -445,6 +455,8 @@ class Replayer:
         free = []
         if op in ("init", "init_populated"):
             self.sm = sm = self.SM(2)
+            # scalars the model does not track but every commit records (a batch per recorded quantity, also for these)
+            sm.update_current({"iter": 0, "calls": 0, "ess": 1.0, "acceptance": 0.5, "steps": 1})
             if op == "init_populated":
                 sm.update_current({"x": self.new("x", 1), "logl": self.new("logl", 1), "beta": 1.0, "logz": 0.0}, copy=True)
                 sm.commit_current_to_history()
@@ -551,9 +563,11 @@ class Replayer:
             self.hold(self.d, "caller")
         elif op == "update_from_dict":
             sm.update_from_dict(self.d)
+            sm.update_current({"iter": 0, "calls": 0, "ess": 1.0, "acceptance": 0.5, "steps": 1})
             self.optin = {}
         elif op == "from_dict":
             self.sm = self.SM.from_dict(self.d)
+            self.sm.update_current({"iter": 0, "calls": 0, "ess": 1.0, "acceptance": 0.5, "steps": 1})
             self.optin = {}
         elif op == "save_state":
             with contextlib.redirect_stdout(io.StringIO()):
@@ -562,7 +576,10 @@ class Replayer:
             sm.load_state(os.path.join(self.tmp, "state.pkl"))
             self.optin = {}
         elif op == "scribble":
-            self.locate(l["w"], l["k2"], i).fill(SENT)
+            tgt = self.locate(l["w"], l["k2"], i)
+            if isinstance(tgt, np.ndarray) and not tgt.flags.writeable and isinstance(tgt.base, np.ndarray) and tgt.base.flags.writeable:
+                tgt = tgt.base   # the caller's own buffer behind the read-only view it handed over
+            tgt.fill(SENT)
             self.scribbles += 1
             self.nontrivial = True
         elif op == "scribble_list":
